@@ -45,7 +45,7 @@ STUB = ["the scenario files live in the run's own scratch directory on the real 
 ASSUMPTIONS = ["run-spec overrides are generated for DSL models only, as the property says",
                "stop times lie on the grid of (start, dt)", "constants given as strings are numeric literals"]
 FAULT_KINDS = []
-PROBES = ["observed_together_with_sibling", "sibling_on_another_grid", "channel_dict", "channel_files", "files_split_over_two", "base_constants_inherited", "base_points_inherited", "xmile_sourced_scenario",
+PROBES = ["step_settings_expire_with_the_session", "sparse_observation", "observed_together_with_sibling", "sibling_on_another_grid", "channel_dict", "channel_files", "files_split_over_two", "base_constants_inherited", "base_points_inherited", "xmile_sourced_scenario",
           "runspec_override_at_registration", "setting_between_two_runs", "setting_after_reset", "string_valued_constant",
           "scenario_without_overrides"]
 EXHAUSTIVE = {"quick": False, "thorough": False}
@@ -129,14 +129,20 @@ def generate(spec):
             ops.append({"op": "begin_session", "managers": smgrs, "scenarios": [sc], "settings": {mgrn: {sc: st}}, "equations": eqs})
             if rng.random() < 0.5:
                 ops.append({"op": "run_step", "settings": {}})
+            if rng.random() < 0.35 and not is_x:
+                # a step that carries settings of its own (they last until the session ends), then the session ends and the
+                # scenario's declared settings are what counts again
+                ops.append({"op": "run_step", "settings": {mgrn: {sc: c06.gen_settings(rng, tpl, base, allow_runspecs=False)}}})
             ops.append({"op": "end_session"})
+            if rng.random() < 0.5:
+                ops.append({"op": "run", "managers": [mgrn], "scenarios": [sc], "equations": eqs, "format": rng.choice(["df", "dict", "json"])})
         elif r < 0.93 or channel != "dict" or is_x:
             ops.append({"op": "reset_cache", "manager": mgrn, "scenario": sc})
         else:
             # the scenario is registered again under its name with another definition: what the new definition does not
             # mention goes back to the manager's base values / the model's own
             ops.append({"op": "add_scenario", "manager": mgrn, "name": sc, "dict": c06.gen_settings(rng, tpl, base, partial_runspecs=True)})
-    return {"property": PROPERTY, "config": cfg, "ops": ops}
+    return {"property": PROPERTY, "config": cfg, "ops": ops, "observe": rng.choice(["each", "each", "sparse"])}
 
 
 # ------------------------------------------------------------------ file channel
